@@ -80,6 +80,13 @@ def tasks(tier, seed):
         ts.append({"part": "mixed", "accept": accept, "line": False, "bound": 4 if q else 6, "name": "mixed/%s/sync" % accept})
     for k in range(4):
         ts.append({"part": "mixed", "accept": "one", "line": True, "bound": 2, "shard": [k, 4, 2], "name": "mixed/one/line/%d" % k})
+    # the same on a connection obtained from create_connection() with its defaults (the documented thread-safe configuration)
+    for accept in (None, "one", "half"):
+        ts.append({"part": "senders", "threads": 2, "accept": accept, "line": False, "bound": 4 if q else 6, "entry": "create_connection",
+                   "name": "senders/2/%s/sync/create_connection" % accept})
+    ts.append({"part": "senders", "threads": 3, "accept": "half", "line": False, "bound": 2 if q else 4, "entry": "create_connection", "name": "senders/3/half/sync/create_connection"})
+    ts.append({"part": "receivers", "line": False, "bound": 4 if q else 6, "entry": "create_connection", "name": "receivers/sync/create_connection"})
+    ts.append({"part": "mixed", "accept": "one", "line": False, "bound": 4 if q else 6, "entry": "create_connection", "name": "mixed/one/sync/create_connection"})
     # a sender under short writes against a thread that starts the closing handshake (three ways)
     for how in ("recv-close", "send_close", "close"):
         for accept in ("one", "half"):
@@ -190,6 +197,10 @@ def make_conn(ch, d, stream=None):
     sock.address = ("192.0.2.1", 80)
     sock.send_accept = d.get("accept")
     sock.send_delay = d.get("send_delay", 0.0)
+    if d.get("entry") == "create_connection":
+        # the connection object comes from the module-level entry point in its documented default configuration: it is opened (real
+        # handshake over the simulated transport) by the harness's main thread before the workers start
+        return sc, sock, LateWS(sock, d, stream)
     ws = lib.websocket.WebSocket()
     ws.sock = sock
     ws.connected = True
@@ -201,8 +212,41 @@ def make_conn(ch, d, stream=None):
     return sc, sock, ws
 
 
+class LateWS:
+    def __init__(self, sock, d, stream):
+        self._sock, self._d, self._stream, self._ws, self._no_eof = sock, d, stream, None, False
+
+    def open_late(self):
+        sock, d = self._sock, self._d
+        script = [(0.0, "data", self._stream)] + ([] if getattr(self, "_no_eof", False) else [(0.0, "eof", b"")]) if self._stream is not None else []
+        peer = tnet.ServerPeer(hs="ok", script=script, on_ping=None, on_close="silent")
+        sock.peer = peer
+        peer.attach(sock)
+        accept, sock.send_accept = sock.send_accept, None
+        kw = {"timeout": d["timeout"]} if d.get("timeout") is not None else {}
+        self._ws = lib.websocket.create_connection("ws://h.example/chat", socket=sock, **kw)
+        sock.send_accept = accept
+        sock.peer = None  # from here on the transport only records
+        sock.hs_writes = len(sock.written)
+        del sock.events[:]
+
+    def __getattr__(self, name):
+        return getattr(self._ws, name)
+
+    def __next__(self):
+        return next(self._ws)
+
+    def __iter__(self):
+        return self
+
+
+def _late(ws):
+    if isinstance(ws, LateWS):
+        ws.open_late()
+
+
 def wire_of(sock):
-    return b"".join(d for t, d in sock.written)
+    return b"".join(d for t, d in sock.written[getattr(sock, "hs_writes", 0):])
 
 
 MSGS = [b"A" * 5, b"bb" * 70, b"C" * 3, b"D" * 9]
@@ -224,6 +268,7 @@ class SendersHarness:
                 return f
 
             def main():
+                _late(ws)
                 for i in range(d["threads"]):
                     sc.spawn(worker(i), "sender%d" % i)
             res = sc.run(main)
@@ -327,6 +372,7 @@ class ReceiversHarness:
                 return f
 
             def main():
+                _late(ws)
                 for i in range(2):
                     sc.spawn(worker(i), "receiver%d" % i)
             res = sc.run(main)
@@ -380,6 +426,7 @@ class FrameReceiversHarness:
                 return f
 
             def main():
+                _late(ws)
                 for i in range(2):
                     sc.spawn(worker(i), "framereceiver%d" % i)
             res = sc.run(main)
@@ -407,7 +454,10 @@ class MixedHarness:
         d = self.d
         stream = R.encode(R.TEXT, b"x1") + R.encode(R.PING, b"PING-PAYLOAD-16by") + R.encode(R.TEXT, b"x2")
         sc, sock, ws = make_conn(ch, d, stream)
-        sock.inbox.pop()  # no EOF: the receiver stops after its two messages (a lost connection racing with a send is not this property's subject)
+        if isinstance(ws, LateWS):
+            ws._no_eof = True
+        else:
+            sock.inbox.pop()  # no EOF: the receiver stops after its two messages (a lost connection racing with a send is not this property's subject)
         got = []
         errors = []
         try:
@@ -429,6 +479,7 @@ class MixedHarness:
                     errors.append(e)
 
             def main():
+                _late(ws)
                 sc.spawn(receiver, "receiver")
                 sc.spawn(sender, "sender")
             res = sc.run(main)
@@ -542,6 +593,7 @@ class ClosingHarness:
                     raised["closer"] = e
 
             def main():
+                _late(ws)
                 sc.spawn(sender, "sender")
                 sc.spawn(closer, "closer")
             res = sc.run(main)
